@@ -33,6 +33,7 @@ USER = [
     ['type', 'PQ', 'q0', 'D:0.05'],       # same unit scales, other quantum
     ['unit', 'PQ', 'q7', ['scaled', 'i:7', 'q0']],
     ['unit', 'PQ', 'qt', ['term', [['D:0.1', 1], ['q0', 1]]]],
+    ['unit', 'PQ', 'qn', ['scaled', 'i:-2', 'q0']],       # negative scale
     ['type', 'L', 'l0', None],
     ['unit', 'L', 'l1', ['scaled', 'D:0.3', 'l0']],
     ['dtype', 'PL', [['P', 1], ['L', 1]], None, 'F:1/7'],
@@ -516,8 +517,8 @@ def run_world(p):
         ck = Ck(w, st, mode, name)
         explore_type(ck, 'P', ['p0', 'p7', 'pt'], ['p0', 'p7', 'pt'])
         explore_near_ties(ck, 'P', ['p0', 'p7', 'pt'])
-        explore_type(ck, 'PQ', ['q0', 'q7', 'qt'], ['q0', 'q7', 'qt'],
-                     light=True)
+        explore_type(ck, 'PQ', ['q0', 'q7', 'qt', 'qn'],
+                     ['q0', 'q7', 'qt', 'qn'], light=True)
         explore_type(ck, 'P2', w.tm['P2'].units, w.tm['P2'].units)
         explore_type(ck, 'PI', w.tm['PI'].units, w.tm['PI'].units)
         explore_powers(ck, ['p0', 'p7', 'pt', 'pi0', 'pi7'], [2, -1, -2])
